@@ -52,7 +52,7 @@ func (c06) Info() core.Info {
 	}
 }
 
-var c06StoreNames = []string{"empty", "numeric", "text", "csv", "json-mixed", "non-utf8", "extremes", "3-byte-keys"}
+var c06StoreNames = []string{"empty", "numeric", "text", "csv", "json-mixed", "non-utf8", "extremes", "3-byte-keys", "mixed-numbers"}
 
 func c06Stores() [][]store.Pair {
 	mk := func(keys, vals []string) []store.Pair {
@@ -72,6 +72,7 @@ func c06Stores() [][]store.Pair {
 		mk([]string{"\xff\xfe", "a\x00b", "\xc3\x28", "k\xe2\x82", "z"}, []string{"\xc3\x28", "\xff", "a\x00", "\xf0\x9f\x98", "1"}),
 		mk(k5, []string{"9223372036854775807", "-9223372036854775808", "1e308", "1.7976931348623157e308", "NaN", "Inf", "-0", "99999999999999999999", "0x10", "1e-320"}),
 		mk([]string{"abc", "abd", "xyz", "a b", "k,1"}, []string{"1", "a,b", "abc", "12", `{"a":1}`}),
+		mk([]string{"a1", "a2", "b1", "b2", "c1", "d1", "d2"}, []string{"1", "2", "1.5", "2", "7", "0.25", "-3"}),
 	}
 }
 
@@ -141,7 +142,11 @@ func c06Valid() []string {
 	// self- and mutually-referential aliases
 	add("select upper(u) as u where key = 'a'", "select upper(u) as u where true", "select key, upper(b) as a, lower(a) as b where true",
 		"select int(n) + 1 as n where n > 1", "select key, strlen(a) as a where a > 1 order by a", "select join(',', x, x) as x where true",
-		"select upper(u) as u, count(1) where true group by u", "select key, value as key where key = 'a'", "select key as value, value as key where value = 'a'")
+		"select upper(u) as u, count(1) where true group by u", "select key, value as key where key = 'a'", "select key as value, value as key where value = 'a'",
+		"select a + 1 as a where true", "select a = 1 as a where true", "select key, b + 1 as a, a + 1 as b where true", "select a & true as a where true",
+		"select key + a as a where true", "select 1 + a as a where a > 0", "select a between 1 and 2 as a where true", "select a in (1, 2) as a where true",
+		"select !(a) as a where true", "select a + a as a where true", "select key, a * 2 as b, b - 1 as c, c / 2 as a where a > 1", "select a ^= 'x' as a where a",
+		"select sum(a) + 1 as a where true", "select a[0] as a where true", "select json(a)['x'] as a where true", "select split(a, ',')[0] + 'x' as a where true order by a")
 	// zero-argument / odd-arity calls of every function
 	fns := []string{"lower", "upper", "int", "float", "str", "is_int", "is_float", "substr", "json", "split", "list", "float_list", "int_list", "flist", "ilist", "len", "join", "strlen", "cosine_distance", "l2_distance",
 		"count", "sum", "avg", "min", "max", "quantile", "json_arrayagg", "group_concat"}
@@ -168,6 +173,12 @@ func c06Valid() []string {
 		add("select key, list(1, 2)["+i+"] where true", "select key, split(value, ',')["+i+"] where true", "select key, json(value)['l']["+i+"] where true",
 			"select key, json(value)["+i+"] where true", "select key, json(value)['o']["+i+"]["+i+"] where true", "select key, json(value)['l']["+i+"] as x where true order by x desc",
 			"select * where json(value)["+i+"] = 'x'", "select key, value["+i+"] where true", "select key, upper(key)["+i+"] where true")
+	}
+	// order by over aggregates whose kind depends on the group's data
+	for _, ag := range []string{"sum(value)", "min(value)", "max(value)", "avg(value)", "sum(value) + 1", "max(value) - min(value)", "count(1)", "quantile(value, 0.5)"} {
+		for _, dir := range []string{"", " desc"} {
+			add("select substr(key, 0, 1) as g, "+ag+" as x where true group by g order by x"+dir, "select substr(key, 0, 1) as g, "+ag+" as x, count(1) as c where key != 'zz' group by g order by c desc, x"+dir+" limit 1, 2")
+		}
 	}
 	// order by / group by over dynamically typed columns
 	add("select key, json(value)['a'] as x where true order by x", "select key, json(value)['a'] as x where true order by x desc, key", "select json(value)['a'] as x, count(1) where true group by x",
@@ -312,7 +323,7 @@ func (c06) RunUnit(t core.Tier, u int, r *core.Reporter) {
 			}
 		}
 	}
-	all := []int{0, 1, 2, 3, 4, 5, 6, 7}
+	all := []int{0, 1, 2, 3, 4, 5, 6, 7, 8}
 	full := [][2]any{{drv.Row, 32}, {drv.Batch, 1}, {drv.Batch, 2}, {drv.Batch, 32}}
 	lite := [][2]any{{drv.Row, 32}, {drv.Batch, 2}}
 	switch un.fam {
